@@ -12,6 +12,8 @@ RULE = ("seeded stratified generator over (T, rate, accel, jerk) in the firmware
         "[T-1.5,T], beyond T, exactly on an integer / half-integer), jerk = 0, T = 1,2,3; distinct by "
         "argument tuple; non-trivial when T >= 2")
 ASSUMPTIONS = [
+    "the bracket is decided for valid moves and for moves whose per-tick peak exceeds 2^31-1 by up to a factor of "
+    "eight (acceleration register in int32 range): the helper exists to expose exactly those",
     "true peak = max |rate_k| over ticks 1..T of the integer recurrence; the rate is a parabola in k, "
     "so the ends and the two integer neighbours of the vertex suffice (self-checked against a brute "
     "force over all ticks for T <= 3000 in every run)",
